@@ -14,12 +14,14 @@
   Tie: driver op "sources" (AY/Driver/OpsSources.lean), case family `sources` of harness/props/c06.py (real files in
   a temporary directory, the real API, `awesomeyaml.yaml.parse` intercepted).
 
-  Two clauses are FALSE of the code (and of the model, which follows it): they are kept as `…_partial` with the
-  hypothesis that excludes the bad region, and the negation is proved (`…_counterexample`) and replayed on the code:
-    * an OS error other than "no such file" / errno 22 / errno 36 propagates only when its type is EXACTLY OSError;
-      IsADirectoryError, NotADirectoryError, PermissionError are swallowed by the guess and the NAME is parsed as YAML;
-    * `_current_file` is reset by the `finally` only when the parser is reached: a file that opens but cannot be
-      decoded leaves its name behind, and the next unnamed source inherits it.
+  Two clauses were FALSE of the code before repo fixes D47 and D48 (found while writing this module).  They are now
+  proved at full strength (`C06_other_oserror_propagates`, `C06_current_file_reset`); the old code is kept below as a
+  mutant (`openStrOld` …) together with the proofs that IT violates them (`…_old_code_counterexample`):
+    * D48: an OS error other than "no such file" / plain errno 22 / 36 propagated only when its type was EXACTLY
+      OSError; IsADirectoryError, NotADirectoryError, PermissionError were swallowed by the guess and the NAME was
+      parsed as YAML;
+    * D47: `_current_file` was set before `read()`: a file that opens but cannot be decoded left its name behind, and
+      the next unnamed source inherited it.
 -/
 import AY.Lemmas.Sources
 namespace AY
@@ -135,38 +137,87 @@ example : addSource c06sFS c06sP {} ({} : BState String) ⟨.str "~/nope.yaml", 
     ({}, some (.fileNotFound "~/nope.yaml")) := by decide
 example : guessSource c06sFS (some false) none (.str "a: 1\n") = .error (.fileNotFound "a: 1\n") := by decide
 
+/-! ### the code before repo fixes D47 / D48, as a mutant -/
+
+/-- `openStr` of the old code: `self._current_file = source` before `f.read()` (D47), re-raise only for
+    `type(e) is OSError and e.errno not in [22, 36]` (D48) -/
+def openStrOld (S : FileSys) (cur : Option String) (s : String) (raw : Option Bool) : Except SrcErr String × Option String :=
+  match openRead S s with
+  | .content t => (.ok t, some s)
+  | .readError => (.error (.decode (S.expanduser s)), some s)
+  | .valueError => (.error (.openValue (S.expanduser s)), cur)
+  | .notFound => (fallback raw s (.fileNotFound (S.expanduser s)) false, cur)
+  | .osError n => (fallback raw s (.osError n (S.expanduser s)) (n != 22 && n != 36), cur)
+  | .osSub c => (fallback raw s (.osSub c (S.expanduser s)) false, cur)
+
+def openStepOld (S : FileSys) (cur : Option String) (src : SourceArg) (raw : Option Bool) :
+    Except SrcErr String × Option String :=
+  match src with
+  | .fileObj c => if rawTrue raw then (.error .rawNotStr, cur) else (.ok c, cur)
+  | .path s => if rawTrue raw then (.error .rawNotStr, cur) else openStrOld S cur s raw
+  | .str s => if rawTrue raw then (.ok s, cur) else openStrOld S cur s raw
+
+/-- `add_source` of the old code (the second half is unchanged) -/
+def addSourceOld {δ : Type} (S : FileSys) (P : Parser δ) (env : Env) (st : BState δ) (a : Args) :
+    BState δ × Option SrcErr :=
+  match openStepOld S st.currentFile a.src a.raw with
+  | (.error e, cur) => ({ st with currentFile := cur }, some e)
+  | (.ok text, cur) =>
+    ({ currentFile := none,
+       stages := st.stages ++ (P ⟨text, recordedName a.filename cur, effSafe env a.safe⟩).1,
+       calls := st.calls ++ [⟨text, recordedName a.filename cur, effSafe env a.safe⟩] },
+     if (P ⟨text, recordedName a.filename cur, effSafe env a.safe⟩).2 then some .parsing else none)
+
 /-! ### (d) other OS errors -/
 
-/- "other OSErrors propagate in every mode" — PARTIAL: for an exception whose type is exactly OSError (errno other
-   than 22 and 36); in every mode that opens the file (raw_yaml None or False; raw_yaml=True opens nothing);
-   the builder is unchanged and nothing is parsed -/
-theorem C06_other_oserror_propagates_partial {δ : Type} (S : FileSys) (P : Parser δ) (env : Env) (st : BState δ)
-    (s : String) (n : Nat) (raw : Option Bool) (filename : Option String) (safe : Option Bool)
-    (herr : openRead S s = .osError n) (h22 : n ≠ 22) (h36 : n ≠ 36) (hraw : raw = none ∨ raw = some false) :
-    guessSource S raw filename (.str s) = .error (.osError n (S.expanduser s)) ∧
-    addSource S P env st ⟨.str s, raw, filename, safe⟩ = (st, some (.osError n (S.expanduser s))) := by
-  have hp : (n != 22 && n != 36) = true := by simp [h22, h36]
-  rcases hraw with rfl | rfl
-  · constructor
-    · simp [guessSource, guessSourceFrom, openStep, rawTrue, openStr_osError none _ herr, fallback, hp]
-    · simp [addSource, openStep, rawTrue, openStr_osError _ _ herr, fallback, hp]
-  · constructor
-    · simp [guessSource, guessSourceFrom, openStep, rawTrue, openStr_osError none _ herr, fallback, hp]
-    · simp [addSource, openStep, rawTrue, openStr_osError _ _ herr, fallback, hp]
+/- "other OSErrors propagate in every mode": every OS error other than FileNotFoundError and a plain OSError with
+   errno 22 / 36 — a plain OSError with another errno (ELOOP, EMFILE, …) AND every proper subclass (IsADirectoryError,
+   NotADirectoryError, PermissionError, …) — propagates in every mode that opens the file (raw_yaml None or False;
+   raw_yaml=True opens nothing: `C06_raw_true_never_touches_fs`); the builder is unchanged and nothing is parsed -/
+theorem C06_other_oserror_propagates {δ : Type} (S : FileSys) (P : Parser δ) (env : Env) (st : BState δ)
+    (s : String) (raw : Option Bool) (filename : Option String) (safe : Option Bool)
+    (hraw : raw = none ∨ raw = some false) :
+    (∀ n, openRead S s = .osError n → n ≠ 22 → n ≠ 36 →
+      guessSource S raw filename (.str s) = .error (.osError n (S.expanduser s)) ∧
+      addSource S P env st ⟨.str s, raw, filename, safe⟩ = (st, some (.osError n (S.expanduser s)))) ∧
+    (∀ c, openRead S s = .osSub c →
+      guessSource S raw filename (.str s) = .error (.osSub c (S.expanduser s)) ∧
+      addSource S P env st ⟨.str s, raw, filename, safe⟩ = (st, some (.osSub c (S.expanduser s)))) := by
+  constructor
+  · intro n herr h22 h36
+    have hp : (n != 22 && n != 36) = true := by simp [h22, h36]
+    rcases hraw with rfl | rfl
+    · constructor
+      · simp [guessSource, guessSourceFrom, openStep, rawTrue, openStr_osError none _ herr, fallback, hp]
+      · simp [addSource, openStep, rawTrue, openStr_osError _ _ herr, fallback, hp]
+    · constructor
+      · simp [guessSource, guessSourceFrom, openStep, rawTrue, openStr_osError none _ herr, fallback, hp]
+      · simp [addSource, openStep, rawTrue, openStr_osError _ _ herr, fallback, hp]
+  · intro c herr
+    rcases hraw with rfl | rfl
+    · constructor
+      · simp [guessSource, guessSourceFrom, openStep, rawTrue, openStr_osSub none _ herr]
+      · simp [addSource, openStep, rawTrue, openStr_osSub _ _ herr]
+    · constructor
+      · simp [guessSource, guessSourceFrom, openStep, rawTrue, openStr_osSub none _ herr]
+      · simp [addSource, openStep, rawTrue, openStr_osSub _ _ herr]
 
 example : guessSource c06sFS none none (.str "loop") = .error (.osError 40 "loop") := by decide
+example : guessSource c06sFS none none (.str "conf") = .error (.osSub "IsADirectoryError" "conf") := by decide
+example : addSource c06sFS c06sP {} ({} : BState String) ⟨.str "conf", none, some "n", none⟩ =
+    ({}, some (.osSub "IsADirectoryError" "conf")) := by decide
 
-/- … and the negation for the rest of the clause: an OS error of a proper subclass (IsADirectoryError,
-   NotADirectoryError, PermissionError: `type(e) is OSError` is false) does NOT propagate with raw_yaml=None — the
-   name of the directory / unreadable file is parsed as YAML text; it propagates with raw_yaml=False only -/
-theorem C06_oserror_subclass_falls_back_counterexample (S : FileSys) (s c : String) (filename : Option String)
+/- … the old code (before D48) violated the clause: for a proper subclass `type(e) is OSError` is false, so with
+   raw_yaml=None the error did NOT propagate — the name of the directory / unreadable file was parsed as YAML text -/
+theorem C06_other_oserror_propagates_old_code_counterexample (S : FileSys) (s c : String)
     (herr : openRead S s = .osSub c) :
-    guessSource S none filename (.str s) = .ok (s, filename) ∧
-    guessSource S (some false) filename (.str s) = .error (.osSub c (S.expanduser s)) := by
-  cases filename <;>
-    simp [guessSource, guessSourceFrom, openStep, rawTrue, openStr_osSub none _ herr, fallback, recordedName]
+    openStepOld S none (.str s) none = (.ok s, none) ∧
+    (addSourceOld c06sFS c06sP {} ({} : BState String) ⟨.str "conf", none, none, none⟩).1.calls = [⟨"conf", none, true⟩] := by
+  constructor
+  · simp [openStepOld, rawTrue, openStrOld, herr, fallback]
+  · decide
 
-example : guessSource c06sFS none none (.str "conf") = .ok ("conf", none) := by decide
+example : openRead c06sFS "conf" = .osSub "IsADirectoryError" := by decide
 
 /-! ### (e) `filename` -/
 
@@ -221,11 +272,10 @@ example : addMultiple c06sFS c06sP {} ({} : BState String) [.str "x: 1", .str "y
 
 /-! ### (g) `_current_file` -/
 
-/- "after add_source returns or raises, the builder's current file is None (the `finally`)" — PARTIAL: on a builder
-   whose current file is None, unless `read()` of the opened file raises -/
-theorem C06_current_file_reset_partial {δ : Type} (S : FileSys) (P : Parser δ) (env : Env) (st : BState δ) (a : Args)
-    (hclean : st.currentFile = none)
-    (hread : ∀ s, a.src = .str s ∨ a.src = .path s → openRead S s ≠ .readError) :
+/- "after add_source returns or raises, the builder's current file is None (the `finally`)" — at ANY point: the early
+   ValueError, every error of `open`, a failing `read()` (the name is stored only after the read), a parser error -/
+theorem C06_current_file_reset {δ : Type} (S : FileSys) (P : Parser δ) (env : Env) (st : BState δ) (a : Args)
+    (hclean : st.currentFile = none) :
     (addSource S P env st a).1.currentFile = none := by
   unfold addSource
   rcases ho : openStep S st.currentFile a.src a.raw with ⟨r, cur⟩
@@ -233,13 +283,30 @@ theorem C06_current_file_reset_partial {δ : Type} (S : FileSys) (P : Parser δ)
   | ok t => rfl
   | error e =>
     show cur = none
-    rw [hclean] at ho
-    have h := openStep_error_snd hread (by rw [ho])
+    have h := openStep_error_snd (S := S) (cur := st.currentFile) (src := a.src) (raw := a.raw) (e := e) (by rw [ho])
     rw [ho] at h
-    exact h
+    exact h.trans hclean
 
 example : (addSource c06sFS c06sP {} ({} : BState String) ⟨.str "main.yaml", none, none, none⟩).1.currentFile = none := by decide
 example : (addSource c06sFS c06sP {} ({} : BState String) ⟨.str "loop", none, none, none⟩).1.currentFile = none := by decide
+example : addSource c06sFS c06sP {} ({} : BState String) ⟨.str "bin.yaml", none, none, none⟩ = ({}, some (.decode "bin.yaml")) := by decide
+
+/- … hence an invariant: on a builder that starts fresh the current file is None after ANY sequence of `add_source` /
+   `add_multiple_sources` calls, whatever they raise (the hypothesis of `C06_current_file_reset` is always met) -/
+theorem C06_current_file_always_none {δ : Type} (S : FileSys) (P : Parser δ) (env : Env) (args : List Args)
+    (st : BState δ) (hclean : st.currentFile = none) :
+    (addLoop S P env st args).1.currentFile = none := by
+  induction args generalizing st with
+  | nil => exact hclean
+  | cons a rest ih =>
+    have h1 := C06_current_file_reset S P env st a hclean
+    simp only [addLoop]
+    rcases hr : addSource S P env st a with ⟨st', _ | e⟩
+    · rw [hr] at h1; exact ih st' h1
+    · rw [hr] at h1; exact h1
+
+example : (addLoop c06sFS c06sP {} ({} : BState String)
+    [⟨.str "bin.yaml", none, none, none⟩]).1.currentFile = none := by decide
 
 /- … the `finally` itself: whenever `add_source` reaches the parser (also when the parser raises, also on a builder
    that carries a stale name), the current file is None afterwards -/
@@ -253,26 +320,27 @@ theorem C06_current_file_reset_after_parse {δ : Type} (S : FileSys) (P : Parser
 example : (addSource c06sFS (fun c => ([c.text], true)) {} ⟨some "stale", [], []⟩ ⟨.str "x: 1", some true, none, none⟩)
     = (⟨none, ["x: 1"], [⟨"x: 1", some "stale", true⟩]⟩, some .parsing) := by decide
 
-/- "so a later source does not inherit a name": after any `add_source` on a clean builder (no read error), a YAML
-   text added next without `filename` is parsed with no file name -/
+/- "so a later source does not inherit a name": after ANY `add_source` on a clean builder — a failed read included —
+   a YAML text added next without `filename` is parsed with no file name -/
 theorem C06_later_source_inherits_no_name {δ : Type} (S : FileSys) (P : Parser δ) (env : Env) (st : BState δ) (a : Args)
-    (t : String) (safe : Option Bool) (hclean : st.currentFile = none)
-    (hread : ∀ s, a.src = .str s ∨ a.src = .path s → openRead S s ≠ .readError) :
+    (t : String) (safe : Option Bool) (hclean : st.currentFile = none) :
     (addSource S P env (addSource S P env st a).1 ⟨.str t, some true, none, safe⟩).1.calls =
       (addSource S P env st a).1.calls ++ [⟨t, none, effSafe env safe⟩] := by
-  rw [addSource_rawTrue, C06_current_file_reset_partial S P env st a hclean hread]
+  rw [addSource_rawTrue, C06_current_file_reset S P env st a hclean]
   rfl
 
 example : (addLoop c06sFS c06sP {} {} [⟨.str "main.yaml", none, none, none⟩, ⟨.str "x: 1", some true, none, none⟩]).1.calls =
     [⟨"a: 1\n---\nb: 2\n", some "main.yaml", true⟩, ⟨"x: 1", none, true⟩] := by decide
+example : (addSource c06sFS c06sP {} (addSource c06sFS c06sP {} ({} : BState String) ⟨.str "bin.yaml", none, none, none⟩).1
+    ⟨.str "x: 1", some true, none, none⟩).1.calls = [⟨"x: 1", none, true⟩] := by decide
 
-/- … and the negation without the hypothesis: a file that opens but cannot be decoded (`read()` raises
-   UnicodeDecodeError after `self._current_file = source`, outside the `try/finally`) leaves its name in the builder,
-   and the next unnamed YAML text is parsed under that name -/
-theorem C06_current_file_reset_counterexample :
-    (addSource c06sFS c06sP {} ({} : BState String) ⟨.str "bin.yaml", none, none, none⟩) =
+/- … the old code (before D47) violated the clause: a file that opens but cannot be decoded (`read()` raises
+   UnicodeDecodeError after `self._current_file = source`, outside the `try/finally`) left its name in the builder, and
+   the next unnamed YAML text was parsed under that name -/
+theorem C06_current_file_reset_old_code_counterexample :
+    (addSourceOld c06sFS c06sP {} ({} : BState String) ⟨.str "bin.yaml", none, none, none⟩) =
       (⟨some "bin.yaml", [], []⟩, some (.decode "bin.yaml")) ∧
-    (addSource c06sFS c06sP {} (addSource c06sFS c06sP {} ({} : BState String) ⟨.str "bin.yaml", none, none, none⟩).1
+    (addSourceOld c06sFS c06sP {} (addSourceOld c06sFS c06sP {} ({} : BState String) ⟨.str "bin.yaml", none, none, none⟩).1
         ⟨.str "x: 1", some true, none, none⟩).1.calls = [⟨"x: 1", some "bin.yaml", true⟩] := by
   decide
 
